@@ -39,6 +39,19 @@ func (p Params) String(key string) (val string) {
 	return
 }
 
+// clone the params. a request must not share the map with the route cache or other requests
+func (p Params) clone() Params {
+	if p == nil {
+		return nil
+	}
+
+	np := make(Params, len(p))
+	for k, v := range p {
+		np[k] = v
+	}
+	return np
+}
+
 // Int get int value by key
 func (p Params) Int(key string) (val int) {
 	if str, ok := p[key]; ok {
@@ -324,7 +337,8 @@ func (r *Route) copyWithParams(ps Params) *Route {
 	var nr = *r
 	nr.regex = nil
 	nr.matches = nil
-	nr.params = ps
+	// Notice: keep an own copy, the given map is handed to the current request
+	nr.params = ps.clone()
 
 	return &nr
 }
